@@ -24,34 +24,17 @@ def _drop_inside_definite(stream, threshold, limit=None):
 
 
 def _sim_marks(stream, threshold, header_marks, limit):
-    pos = 0
-    base = [0]
-    hit = [False]
-
-    def mark(p, inside_definite):
-        if p > limit:
-            return      # the stream ended before this mark point
-        if p - base[0] > threshold:
-            base[0] = p
-            if inside_definite:
-                hit[0] = True
-
-    def visit(n, open_definite):
-        mark(n.start, open_definite)
-        if header_marks:
-            mark(n.hdr_end, open_definite or n.length != -1)
-        inner = open_definite or (n.constructed and n.length != -1)
-        for c in n.children:
-            visit(c, inner)
-
-    while pos < len(stream):
-        try:
-            n = tlv.scan(stream, pos)
-        except (tlv.ScanError, RecursionError):
-            break
-        visit(n, False)
-        pos = n.end
-    return hit[0]
+    base = 0
+    for start, hdr_end, end, constructed, definite, open_def in tlv.headers_tolerant(stream):
+        if start <= limit and start - base > threshold:
+            base = start
+            if open_def:
+                return True
+        if header_marks and hdr_end <= limit and hdr_end - base > threshold:
+            base = hdr_end
+            if open_def or definite:
+                return True
+    return False
 
 
 def _context(mod, plan, viol):
